@@ -244,8 +244,8 @@ func R18(p *core.Prog) *core.Result {
 	r.Floor("nil_result_call_sites", sites, 10)
 
 	// (b)
-	symT := gp.Types.Scope().Lookup("symbol")
-	cacheT := gp.Types.Scope().Lookup("symbolCache")
+	symT := typeObj(p, "gotype", "symbol")
+	cacheT := typeObj(p, "gotype", "symbolCache")
 	if symT == nil || cacheT == nil {
 		r.Undecided(".INTERN-CONSISTENT", "gotype.symbol", "types symbol / symbolCache not found")
 		return r
@@ -275,11 +275,11 @@ func R18(p *core.Prog) *core.Result {
 						continue
 					}
 					n := namedOf(fa.X.Type())
-					if n == nil || (n.Obj() != symT && n.Obj().Name() != "symbolList") {
+					if n == nil || (n.Obj() != symT && core.TypeName(n) != "symbolList") {
 						continue
 					}
 					st := n.Underlying().(*types.Struct)
-					if st.Field(fa.Field).Name() != "value" {
+					if core.FieldName(st, fa.Field) != "value" {
 						continue
 					}
 					valueStores++
@@ -360,7 +360,7 @@ func storesToField(a *ssa.Alloc, name string) []ssa.Value {
 				continue
 			}
 			st := fa.X.Type().Underlying().(*types.Pointer).Elem().Underlying().(*types.Struct)
-			if st.Field(fa.Field).Name() != name {
+			if core.FieldName(st, fa.Field) != name {
 				continue
 			}
 			if rs := fa.Referrers(); rs != nil {
@@ -439,7 +439,7 @@ func listSentinel(p *core.Prog, r *core.Result) {
 					continue
 				}
 				nt, ok := pt.Elem().(*types.Named)
-				if !ok || nt.Obj().Name() != "symbolList" {
+				if !ok || core.TypeName(nt) != "symbolList" {
 					continue
 				}
 				n++
@@ -457,7 +457,7 @@ func listSentinel(p *core.Prog, r *core.Result) {
 						}
 						fs := fa.X.Type().Underlying().(*types.Pointer).Elem().Underlying().(*types.Struct)
 						if reaches(st, s2) {
-							linked[fs.Field(fa.Field).Name()] = true
+							linked[core.FieldName(fs, fa.Field)] = true
 						}
 					}
 				}
@@ -525,7 +525,7 @@ func (k *irClient) okValue(v ssa.Value, depth int) string {
 		return ""
 	case *ssa.UnOp:
 		if fa, ok := x.X.(*ssa.FieldAddr); ok {
-			if nt := namedOf(fa.X.Type()); nt != nil && nt.Obj().Name() == "symbol" {
+			if nt := namedOf(fa.X.Type()); nt != nil && core.TypeName(nt) == "symbol" {
 				return "" // sym.value
 			}
 		}
